@@ -185,6 +185,78 @@ def make_during(P):
     return h
 
 
+def make_flap(P):
+    """A flapping signal: high, low, high again within the suspender's settle time, low again.  The plan must be held
+    from the first trip until the LAST recovery plus the settle time."""
+    import bluesky.suspenders as bs
+
+    def h(k: int, d2: int, d3: int, d4: int) -> str:
+        kk = fork_range(k, 2, 7)  # early enough for all four changes to land while the plan is still running (late suspensions: C07/C03 findings)
+        a2, a3, a4 = fork_int(d2, 1, 3), fork_int(d3, 1, 3), fork_int(d4, 1, 4)
+        only_shard(kk, P)
+        with notrace():
+            holder = {}
+
+            def setup(lab):
+                sig = Signal("s0", lab, 0)
+                holder["signals"] = dict(s0=sig, s1=Signal("s1", lab, 0))
+                holder["sus"] = s = bs.SuspendBoolHigh(sig, sleep=SLEEP)
+                with contextlib.redirect_stdout(lab.out):
+                    lab.RE.install_suspender(s)
+                lab.settle()
+
+            steps = [kk, kk + a2, kk + a2 + a3, kk + a2 + a3 + a4]
+            updates = [dict(step=st, signal="s0", value=v) for st, v in zip(steps, (1, 0, 1, 0))]
+            obs = sweep.run_case(_plan_factory(holder), (), "resume", setup=setup, updates=updates, followup=False)
+            if obs.stuck:
+                return "engine-stuck-after-a-flapping-signal"
+            call = obs.calls[0]
+            tags = []
+            if call["outcome"] != "ret":
+                tags.append(f"call-ended-with-{call['exc_type']}")
+            ups = [r for r in obs.reqs if r["kind"] == "update"]
+            if len(ups) < 4:
+                return ";".join(tags)  # the plan ended before the signal had flapped
+            starts = [i for i, m in enumerate(obs.msgs) if m.command == "_start_suspender"]
+            if not starts:
+                return ";".join(tags)
+            goal("suspended")
+            # hold intervals from the signal history: tripped at a 'high', released SLEEP after the following 'low' unless tripped again before
+            holds, cur = [], None
+            for u in ups:
+                if u["value"] == 1 and u["state"] in ("running", "suspending") or (u["value"] == 1 and cur is not None):
+                    if cur is None:
+                        cur = [u["t"], None]
+                    else:
+                        cur[1] = None  # tripped again before the release: the hold goes on
+                elif u["value"] == 0 and cur is not None:
+                    cur[1] = u["t"] + SLEEP
+                if cur is not None and cur[1] is not None and cur not in holds:
+                    holds.append(cur)
+            if cur is not None and cur not in holds:
+                holds.append(cur)
+            # merge: a re-trip before the previous release time extends the same hold
+            merged = []
+            for a, b in holds:
+                if merged and merged[-1][1] is not None and a <= merged[-1][1]:
+                    merged[-1][1] = b
+                else:
+                    merged.append([a, b])
+            if ups[2]["t"] < ups[1]["t"] + SLEEP:
+                goal("tripped-again-within-the-settle-time")
+            first_suspender = starts[0]
+            for i, m in enumerate(obs.msgs):
+                if i <= first_suspender or m.command not in ("null", "sleep", "close_run"):
+                    continue
+                t = obs.msg_times[i]
+                for a, b in merged:
+                    if b is not None and a + 1e-9 < t < b - 1e-9:
+                        tags.append("plan-message-executed-while-the-signal-was-tripped-or-settling")
+            return ";".join(sorted(set(tags)))
+
+    return h
+
+
 def _fns():
     import bluesky.suspenders as bs
     from bluesky.run_engine import RunEngine
@@ -202,3 +274,8 @@ register(Harness("c31_during", "C31", make_during, {"quick": dict(shards=13, bud
                  goals=["suspended"], functions=_fns, mode="schedule",
                  symbolic="signal goes high at loop step k in [2,14] of a running plan; after 1..8 steps it goes low / the suspender is removed / removed twice; 1..8 steps later the signal changes again",
                  out_of_bound=OUT, stubs=STUBS, require_exhaustive=True))
+for _prop, _name in (("C31", "c31_flap"), ("C11", "c11_flap")):
+    register(Harness(_name, _prop, make_flap, {"quick": dict(shards=6, budget_s=300, per_path_s=30)},
+                     goals=["suspended", "tripped-again-within-the-settle-time"], functions=_fns, mode="schedule",
+                     symbolic="a real SuspendBoolHigh(sleep=0.25 s) on a signal that goes high at loop step k in [2,7], low 1..3 steps later, high again 1..3 steps later, low again 1..4 steps later",
+                     out_of_bound=OUT + "; other suspender classes (their conditions are C30)", stubs=STUBS + ["bluesky.suspenders.threading bound to the lab's pumping Event"], require_exhaustive=True))
